@@ -682,4 +682,129 @@ theorem C10_bystanders (st : St) (f : Frame) (o : Obs) (next : St) (h : processF
               simp [this.1, this.2] at hk
             · exact dispatchSession_by _ _ _ _ _ hx k hk
 
+/-- A plain `message` (no media server involved) whose recipient names the
+bystander's session or user, or the room the sender shares with it, *is*
+delivered: together with `C10_bystanders` the bystander gets exactly that. -/
+theorem C10_addressed_message_delivered (st : St) (s : Sess) (m : ClientMessage) (mm : MessageMsg) (size : Nat)
+    (hc : st.conn = .session s) (hfed : s.fed = false) (hmcu : st.world.mcu = false) (hsz : size ≤ Fc.maxMessageSize)
+    (hv : checkValid Fc m = .ok) (ht : m.mtype = "message") (hmm : m.message = some mm)
+    (hn : namesBystander s mm.recipient = true) (hcall : mm.recipient.rtype ≠ "call") :
+    ∃ o, processFrame Fc st { size := size, binary := false, dec := .ok m } = .ok o st ∧ o.bMust = ["message"] := by
+  have hvb : Fc.validateBeforeDispatch = true := by decide
+  have hlb : Fc.messageCounterLabelFromFixedSet = true := by decide
+  have hno : ¬ (Fc.readLimitIsMaxMessageSize = true ∧ size > Fc.maxMessageSize) := by intro h; omega
+  have hroute : (route s "message" mm.recipient (!st.world.virt.isEmpty)).bMust = ["message"] := by
+    unfold namesBystander at hn
+    unfold route
+    by_cases h1 : mm.recipient.rtype = "session"
+    · simp only [h1, if_true]
+      simp [h1] at hn
+      simp [hn]
+    · by_cases h2 : mm.recipient.rtype = "user"
+      · simp only [h1, h2, if_true, if_false]
+        simp [h2] at hn
+        simp [hn]
+      · by_cases h3 : mm.recipient.rtype = "room"
+        · simp [h1, h2, h3] at hn
+          simp [h1, h2, h3, hn, Sess.inBy]
+        · simp [h1, h2, h3, hcall] at hn
+  have hproc : processMessage Fc st m =
+      .ok (withAmbient s (route s "message" mm.recipient (!st.world.virt.isEmpty))) st := by
+    unfold processMessage
+    simp only [hvb, hlb, if_true, hv, hc, hfed]
+    simp only [Bool.not_true, Bool.false_eq_true, false_and, if_false]
+    unfold dispatchSession
+    have hh : handlerFor Fc "message" = "processMessageMsg" := by decide
+    simp only [ht, hh, String.reduceEq, if_false, if_true]
+    unfold modelMessage
+    simp only [hmm, hmcu, Bool.false_eq_true, false_and, if_false]
+  unfold processFrame
+  rw [hc]
+  simp only [Bool.false_eq_true, false_and, if_false]
+  rw [if_neg hno, hproc]
+  obtain ⟨h, hh⟩ := withHttp_ok st (withAmbient s (route s "message" mm.recipient (!st.world.virt.isEmpty))) st
+  exact ⟨_, hh, by simp [hroute]⟩
+
+/-! ## 4. Non-vacuity and sensitivity to the facts -/
+
+def userInRoom : Sess :=
+  { internal := false, dialoutFeat := false, restrictedUser := false, restricted := false, anon := false, room := .by, fed := false }
+
+def internalPending : Sess := { userInRoom with internal := true, dialoutFeat := true, room := .none }
+
+def stOf (s : Sess) (dial : Bool) : St :=
+  { world := { mcu := false, transient := [], virt := [] }, conn := .session s, dialoutState := dial }
+
+def noData : DataShape := { jsonOk := false, dtype := "", roomType := .empty, sdp := .none }
+
+def msgToRoom : ClientMessage :=
+  { id := .other, mtype := "message", typeUtf8 := true, hello := none, bye := none, room := none, control := none,
+    internal := none, transient := none,
+    message := some { recipient := { rtype := "room", sid := .empty, uid := .empty }, dataNonEmpty := true, data := noData } }
+
+def roomWithoutRoom : ClientMessage :=
+  { id := .other, mtype := "room", typeUtf8 := true, hello := none, bye := none, room := none, message := none,
+    control := none, internal := none, transient := none }
+
+def incallAnsweringDialout : ClientMessage :=
+  { id := .pending, mtype := "internal", typeUtf8 := true, hello := none, bye := none, room := none, message := none,
+    control := none, transient := none,
+    internal := some { itype := "incall", add := none, upd := none, rem := none, incall := some 1, dialout := none } }
+
+def frameOf (m : ClientMessage) : Frame := { size := 100, binary := false, dec := .ok m }
+
+/-- `C10_invalid_no_effect` is not vacuous: `{"type":"room"}` from a user in the
+bystander's room satisfies its hypotheses, and the outcome is the error. -/
+example : (stOf userInRoom false).conn ≠ .dead ∧ (frameOf roomWithoutRoom).size ≤ Fc.maxMessageSize ∧
+    (frameOf roomWithoutRoom).invalid Fc = true ∧
+    processFrame Fc (stOf userInRoom false) (frameOf roomWithoutRoom) =
+      .ok { sMust := ["error:invalid_format"], sMay := ambient } (stOf userInRoom false) := by decide
+
+/-- `C10_bystanders` / `C10_addressed_message_delivered` are not vacuous: a
+message to the room reaches the bystander, and that is what the spec addresses. -/
+example : addressed Fc (stOf userInRoom false) (frameOf msgToRoom) = ["message"] ∧
+    processFrame Fc (stOf userInRoom false) (frameOf msgToRoom) =
+      .ok { sMay := ambient, bMust := ["message"], st := .any } (stOf userInRoom false) := by decide
+
+/-- The facts of the tree before e72f1fa: the response handler of `startDialout`
+dereferences `message.Internal.Dialout` without looking at the type. -/
+def factsBeforeDialoutFix : Facts :=
+  { Fc with derefs := ("BackendServer.startDialout.func1", "Internal.Dialout", "") :: Fc.derefs }
+
+/-- Without the guard of the dialout response handler `C10_total` is false: an
+internal client answers the pending request id with a (valid) `incall`. -/
+theorem C10_total_needs_dialout_guard :
+    checkValid factsBeforeDialoutFix incallAnsweringDialout = .ok ∧
+    processFrame factsBeforeDialoutFix (stOf internalPending true) (frameOf incallAnsweringDialout) =
+      .crash "startDialout response handler: message.Internal.Dialout" := by decide
+
+/-- With the guard (current facts) the same message is an ordinary `incall`, and
+the pending request is left for the harness to complete. -/
+example : processFrame Fc (stOf internalPending true) (frameOf incallAnsweringDialout) =
+    .ok { st := .any, http := some "1" } (stOf internalPending true) := by decide
+
+/-- The facts of the tree before b4fc1ba: the message counter is labelled with the raw type. -/
+def factsBeforeLabelFix : Facts := { Fc with messageCounterLabelFromFixedSet := false }
+
+theorem C10_total_needs_fixed_label :
+    processFrame factsBeforeLabelFix St.init (frameOf { roomWithoutRoom with mtype := "�", typeUtf8 := false }) =
+      .crash "processMessage: statsMessagesTotal.WithLabelValues(message.Type) with a type that is not valid UTF-8" := by
+  decide
+
+/-- Dropping one nil guard from `ClientMessage.CheckValid` (`case "room"`) makes
+`{"type":"room"}` panic inside `CheckValid` itself. -/
+def factsWithoutRoomGuard : Facts :=
+  { Fc with validation := Fc.validation.filter (· ≠ ("ClientMessage", "room", "Room", "nil")) }
+
+theorem C10_total_needs_nil_guard :
+    processFrame factsWithoutRoomGuard (stOf userInRoom false) (frameOf roomWithoutRoom) =
+      .crash "ClientMessage.CheckValid: Room is nil" := by decide
+
+/-- Dispatching before validating makes the same message panic in `processRoom`. -/
+def factsWithoutValidation : Facts := { Fc with validateBeforeDispatch := false }
+
+theorem C10_total_needs_validation :
+    processFrame factsWithoutValidation (stOf userInRoom false) (frameOf roomWithoutRoom) =
+      .crash "processRoom: message.Room" := by decide
+
 end SigModel.ShapesClient
